@@ -437,9 +437,214 @@ pub fn cells(family: &str) -> Vec<Cell>
 				out.push(Cell { family: "access", what: format!("{n}.m"), text: function(&format!("\tvar r: i32 = {e}.m;\n")), expect: Some(is_structural), codes: vec![505, 406] });
 			}
 		}
+		"compound initialisation" | "compound argument" | "compound struct member" | "compound array element" | "compound return" | "compound assignment" => compound_cells(leak(family), &mut out),
 		_ => panic!("unknown family {family}"),
 	}
 	out
+}
+
+/// A compound type: pointer depth, array dimensions (None = view `[]`), base name. `int?` is the
+/// base of an array literal whose elements are naked integer literals.
+#[derive(Debug, Clone, PartialEq, Eq)]
+pub struct CT
+{
+	pub ptr: u8,
+	pub dims: Vec<Option<u32>>,
+	pub base: &'static str,
+}
+
+impl CT
+{
+	pub fn text(&self) -> String
+	{
+		let mut s = String::new();
+		for _ in 0..self.ptr
+		{
+			s.push('&');
+		}
+		for d in &self.dims
+		{
+			match d
+			{
+				Some(n) => s.push_str(&format!("[{n}]")),
+				None => s.push_str("[]"),
+			}
+		}
+		s.push_str(self.base);
+		s
+	}
+}
+
+fn ct(ptr: u8, dims: &[i32], base: &'static str) -> CT
+{
+	CT { ptr, dims: dims.iter().map(|d| if *d < 0 { None } else { Some(*d as u32) }).collect(), base }
+}
+
+/// Why no documented conversion can turn a value of type `u` into the type `t` (None: the pair is
+/// not judged). Penne has no implicit conversions: the only documented adaptations are taking a
+/// view of a sized array (`[N]T` as `[]T`, outermost dimension only... of any dimension that is
+/// written `[]` in the target) and the typing of naked integer literals by their context; none
+/// changes an element type, a length that both sides fix, the number of dimensions or the name
+/// of a structure or word. Differences in pointer depth alone are left to the other families.
+pub fn incompatible(t: &CT, u: &CT) -> Option<&'static str>
+{
+	let int_base = |b: &str| !matches!(b, "bool" | "char8" | "S" | "S2" | "W" | "W2");
+	if t.base != u.base
+	{
+		let literal_fits = (u.base == "int?" && int_base(t.base)) || (t.base == "int?" && int_base(u.base));
+		if !literal_fits
+		{
+			let nominal = |b: &str| matches!(b, "S" | "S2" | "W" | "W2");
+			return Some(if nominal(t.base) && nominal(u.base) { "structure or word name differs" } else { "element or base type differs" });
+		}
+	}
+	if t.dims.len() != u.dims.len()
+	{
+		return Some("number of dimensions differs");
+	}
+	for (a, b) in t.dims.iter().zip(u.dims.iter())
+	{
+		match (a, b)
+		{
+			(Some(n), Some(m)) if n != m => return Some("length differs"),
+			(Some(_), None) => return Some("sized array from a view"),
+			_ =>
+			{}
+		}
+	}
+	None
+}
+
+const COMPOUND_PRELUDE: &str = "struct S\n{\n\tm: i32,\n}\nstruct S2\n{\n\tm: i32,\n}\nword32 W\n{\n\tm: i32,\n}\nword32 W2\n{\n\tm: i32,\n}\n";
+
+fn compound_locals() -> &'static str
+{
+	"\tvar v_i32: i32 = 1;\n\tvar v_u8: u8 = 1;\n\tvar a3i: [3]i32 = [1, 2, 3];\n\tvar a3u: [3]u8 = [1, 2, 3];\n\tvar a4i: [4]i32 = [1, 2, 3, 4];\n\tvar m23i: [2][3]i32 = [[1, 2, 3], [4, 5, 6]];\n\tvar m23u: [2][3]u8 = [[1, 2, 3], [4, 5, 6]];\n\tvar m32i: [3][2]i32 = [[1, 2], [3, 4], [5, 6]];\n\tvar m24i: [2][4]i32 = [[1, 2, 3, 4], [5, 6, 7, 8]];\n\tvar st: S = S { m: 1 };\n\tvar st2: S2 = S2 { m: 1 };\n\tvar wd: W = W { m: 1 };\n\tvar wd2: W2 = W2 { m: 1 };\n"
+}
+
+/// (description, expression, type)
+pub fn compound_sources() -> Vec<(String, String, CT)>
+{
+	let vars: Vec<(&str, CT)> = vec![
+		("v_i32", ct(0, &[], "i32")),
+		("v_u8", ct(0, &[], "u8")),
+		("a3i", ct(0, &[3], "i32")),
+		("a3u", ct(0, &[3], "u8")),
+		("a4i", ct(0, &[4], "i32")),
+		("m23i", ct(0, &[2, 3], "i32")),
+		("m23u", ct(0, &[2, 3], "u8")),
+		("m32i", ct(0, &[3, 2], "i32")),
+		("m24i", ct(0, &[2, 4], "i32")),
+		("st", ct(0, &[], "S")),
+		("st2", ct(0, &[], "S2")),
+		("wd", ct(0, &[], "W")),
+		("wd2", ct(0, &[], "W2")),
+	];
+	let mut v = Vec::new();
+	for (name, t) in &vars
+	{
+		v.push((format!("variable {name}: {}", t.text()), name.to_string(), t.clone()));
+		let mut p = t.clone();
+		p.ptr += 1;
+		v.push((format!("address of variable {name}: {}", t.text()), format!("&{name}"), p));
+	}
+	v.push(("row m23i[1]".into(), "m23i[1]".into(), ct(0, &[3], "i32")));
+	v.push(("row m23u[1]".into(), "m23u[1]".into(), ct(0, &[3], "u8")));
+	let literals: Vec<(&str, CT)> = vec![
+		("[1i32, 2i32, 3i32]", ct(0, &[3], "i32")),
+		("[1u8, 2u8, 3u8]", ct(0, &[3], "u8")),
+		("[1i32, 2i32, 3i32, 4i32]", ct(0, &[4], "i32")),
+		("[1, 2, 3]", ct(0, &[3], "int?")),
+		("[1, 2, 3, 4]", ct(0, &[4], "int?")),
+		("[v_u8, v_u8, v_u8]", ct(0, &[3], "u8")),
+		("[[1i32, 2i32, 3i32], [4i32, 5i32, 6i32]]", ct(0, &[2, 3], "i32")),
+		("[[1u8, 2u8, 3u8], [4u8, 5u8, 6u8]]", ct(0, &[2, 3], "u8")),
+		("[[1, 2], [3, 4], [5, 6]]", ct(0, &[3, 2], "int?")),
+		("[[1, 2, 3, 4], [5, 6, 7, 8]]", ct(0, &[2, 4], "int?")),
+		("S { m: 1 }", ct(0, &[], "S")),
+		("S2 { m: 1 }", ct(0, &[], "S2")),
+		("W { m: 1 }", ct(0, &[], "W")),
+		("W2 { m: 1 }", ct(0, &[], "W2")),
+	];
+	for (e, t) in literals
+	{
+		v.push((format!("literal {e}"), e.to_string(), t));
+	}
+	v
+}
+
+fn compound_targets(family: &str) -> Vec<CT>
+{
+	let arrays = vec![ct(0, &[3], "i32"), ct(0, &[3], "u8"), ct(0, &[4], "i32"), ct(0, &[2, 3], "i32"), ct(0, &[2, 3], "u8"), ct(0, &[3, 2], "i32")];
+	let nominal = vec![ct(0, &[], "S"), ct(0, &[], "S2"), ct(0, &[], "W"), ct(0, &[], "W2")];
+	let pointers = vec![
+		ct(1, &[], "i32"),
+		ct(1, &[], "u8"),
+		ct(1, &[3], "i32"),
+		ct(1, &[3], "u8"),
+		ct(1, &[4], "i32"),
+		ct(1, &[-1], "i32"),
+		ct(1, &[-1], "u8"),
+		ct(1, &[2, 3], "i32"),
+		ct(1, &[-1, 3], "i32"),
+		ct(1, &[-1, 3], "u8"),
+		ct(1, &[], "S"),
+		ct(1, &[], "S2"),
+		ct(1, &[], "W"),
+	];
+	let views = vec![ct(0, &[-1], "i32"), ct(0, &[-1], "u8"), ct(0, &[-1, 3], "i32"), ct(0, &[-1, 3], "u8"), ct(0, &[-1, 2], "i32")];
+	match family
+	{
+		"compound initialisation" => arrays.into_iter().chain(nominal).chain(pointers).collect(),
+		// sized arrays are no parameter types (E354); views, pointers, structures and words are
+		"compound argument" => views.into_iter().chain(nominal).chain(pointers).collect(),
+		"compound struct member" => arrays.into_iter().chain(nominal).collect(),
+		"compound array element" => vec![ct(0, &[3], "i32"), ct(0, &[3], "u8"), ct(0, &[], "S"), ct(0, &[], "W")],
+		// only words (and primitives) are returned by value (E351)
+		"compound return" => vec![ct(0, &[], "W"), ct(0, &[], "W2")],
+		_ => vec![ct(0, &[], "W"), ct(0, &[], "W2")],
+	}
+}
+
+/// A value of the target type for the positions that need one next to the judged operand.
+fn compound_same(t: &CT) -> String
+{
+	match (t.dims.as_slice(), t.base)
+	{
+		([Some(3)], "i32") => "[7i32, 8i32, 9i32]".into(),
+		([Some(3)], "u8") => "[7u8, 8u8, 9u8]".into(),
+		([], "S") => "S { m: 7 }".into(),
+		([], "W") => "W { m: 7 }".into(),
+		([], "W2") => "W2 { m: 7 }".into(),
+		_ => panic!("no same-typed value for {}", t.text()),
+	}
+}
+
+fn compound_cells(family: &'static str, out: &mut Vec<Cell>)
+{
+	let codes = vec![500, 501, 502, 504, 505, 507, 512, 513, 531, 532, 533, 550];
+	for t in compound_targets(family)
+	{
+		let tt = t.text();
+		for (n, e, u) in compound_sources()
+		{
+			let Some(why) = incompatible(&t, &u)
+			else
+			{
+				continue;
+			};
+			let body = match family
+			{
+				"compound initialisation" => format!("fn f()\n{{\n{}\tvar r: {tt} = {e};\n}}\n", compound_locals()),
+				"compound argument" => format!("fn g(x: {tt})\n{{\n}}\nfn f()\n{{\n{}\tg({e});\n}}\n", compound_locals()),
+				"compound struct member" => format!("struct Q\n{{\n\tx: {tt},\n\ty: i32,\n}}\nfn f()\n{{\n{}\tvar q: Q = Q {{ x: {e}, y: 5 }};\n}}\n", compound_locals()),
+				"compound array element" => format!("fn f()\n{{\n{}\tvar r: [2]{tt} = [{}, {e}];\n}}\n", compound_locals(), compound_same(&t)),
+				"compound return" => format!("fn f() -> {tt}\n{{\n{}\treturn: {e}\n}}\n", compound_locals()),
+				_ => format!("fn f()\n{{\n{}\tvar r: {tt} = {};\n\tr = {e};\n}}\n", compound_locals(), compound_same(&t)),
+			};
+			out.push(Cell { family, what: format!("{tt} <- {n} ({why})"), text: format!("{COMPOUND_PRELUDE}{body}"), expect: Some(false), codes: codes.clone() });
+		}
+	}
 }
 
 fn leak(s: &str) -> &'static str
@@ -447,7 +652,7 @@ fn leak(s: &str) -> &'static str
 	FAMILIES.iter().find(|f| **f == s).copied().unwrap_or("?")
 }
 
-pub const FAMILIES: [&str; 22] = [
+pub const FAMILIES: [&str; 28] = [
 	"binary",
 	"comparison",
 	"unary",
@@ -470,6 +675,12 @@ pub const FAMILIES: [&str; 22] = [
 	"index in return value",
 	"call arity",
 	"access",
+	"compound initialisation",
+	"compound argument",
+	"compound struct member",
+	"compound array element",
+	"compound return",
+	"compound assignment",
 ];
 
 pub fn drive(d: &mut Driver)
@@ -658,8 +869,16 @@ fn judge(cell: &Cell, index: usize, context: usize, w: &mut WorkerCtx)
 }
 
 /// Whether the source operand of a cell is a primitive, a pointer or an aggregate.
-fn operand_class(what: &str) -> &'static str
+fn operand_class(what: &str) -> &str
 {
+	// compound families: the kind of mismatch, in parentheses at the end of the description
+	if what.ends_with(')')
+	{
+		if let Some(i) = what.rfind('(')
+		{
+			return &what[i + 1..what.len() - 1];
+		}
+	}
 	let src = what.rsplit("<- ").next().unwrap_or(what);
 	// the one pair of primitive types that share a representation
 	if what == "char8 <- u8 variable" || what == "u8 <- char8 variable"
